@@ -106,20 +106,25 @@ PROPS = {
     ),
     'C02': dict(
         title='Hayson encode -> decode returns the original value',
-        verus=[('u_getters', [r'^parse_ref$', r'^parse_symbol$', r'^parse_uri$', r'^parse_coord$'])],
+        verus=[('u_getters', [r'^parse_ref$', r'^parse_symbol$', r'^parse_uri$', r'^parse_coord$']),
+               ('u_jenc', [r'::serialize$']),
+               ('u_tz', [r'^is_utc$'])],
         kani=[dict(harness='k_json_visit_numbers', klass='complete', schema='raw', family='json-visit', target='JsonValueDecoderVisitor::visit_{i8..u64,f64}'),
               dict(harness='k_json_visit_bool_null', klass='complete', schema=['bool'], family=None, target='JsonValueDecoderVisitor::visit_bool/visit_unit'),
               dict(harness='k_json_number_exact', klass='complete', schema=['f64'], family='json-number', target='<Number as Serialize>::serialize'),
               dict(harness='k_json_number_unit_trace', klass='complete', schema=['f64'], family='json-number', target='<Number as Serialize>::serialize (with unit)')],
-        witness=None,
+        witness='enum:hayson-roundtrip',
         design_ref='DESIGN.md section 4, C02',
         level_text=('Proof (Kani/CBMC, complete over all f64) of the number clause: the real <Number as Serialize>::serialize, run into a '
                     'recording Serializer, emits exactly one JSON number denoting the same f64 (integer form only when exact and not -0.0), '
                     'the Hayson string form for INF/-INF/NaN, and {_kind:number,val:<same f64>,unit:<symbol>} when a unit is present: '
                     'no finite number changes magnitude and no number changes kind. Reader side: the decoder visitor turns a JSON number of '
-                    'every class serde_json hands over (i8..i64, u8..u64, f64 -- complete over each domain) into the unit-less Number with exactly that value.'),
+                    'every class serde_json hands over (i8..i64, u8..u64, f64 -- complete over each domain) into the unit-less Number with exactly that value. '
+                    'Writer side of every other kind (Verus, u_jenc): each Serialize impl hands the serializer exactly the JSON tree jv_value(v) of the Hayson '
+                    'specification -- every tag, cell, column and row, in order, nothing dropped (details under C05); is_utc is true exactly for the UTC zone, '
+                    'so the tz member is written for every other zone.'),
         not_decided=('serde_json itself (text <-> call trace, 128-level recursion limit); Date/Time/DateTime text (chrono; kernel in C06); '
-                     'List/Dict/Grid (serialize_seq/visit_map are generic over external traits); the decode helpers parse_* of decode.rs; '
+                     'the reader side of List/Dict/Grid (visit_map / visit_seq are generic over external traits); the decode helpers parse_* of decode.rs beyond ref/symbol/uri/coord; '
                      'typed Deserialize impls.'),
         technique='contract-based deductive verification: Kani complete symbolic harness over all f64 on the real Serialize impl with a recording Serializer',
     ),
@@ -179,18 +184,23 @@ PROPS = {
     ),
     'C06': dict(
         title='Timestamps keep their instant and zone',
-        verus=[],
+        verus=[('u_tz', [r'^is_utc$']),
+               ('u_enc', [r'^DateTime::to_zinc$']),
+               ('u_jenc', [r'^DateTime::serialize$']),
+               ('u_capi', [r'^haystack_value_get_datetime_date$', r'^haystack_value_get_datetime_time$'])],
         kani=[dict(harness='k_fixed_tz_utc_iff_zero', klass='complete', schema='raw', family='fixed-tz', target='timezone::fixed_timezone', timeout=600)],
-        witness=None,
+        witness='enum:hayson-roundtrip',
         design_ref='DESIGN.md section 4, C06',
         level_text=('Proof (Kani/CBMC, complete over every offset text +-HH:MM with digits 0-9 0-9 : 0-5 0-9) for the one piece of this '
                     'property that is libhaystack\'s own code: fixed_timezone maps an RFC 3339 offset to the zone UTC exactly when the offset is '
-                    'zero, so no non-zero offset is silently read as UTC.'),
+                    'zero, so no non-zero offset is silently read as UTC. Proof (Verus) of the glue around chrono: is_utc holds exactly when the zone '
+                    'of the timestamp is the UTC zone (not when its offset merely happens to be zero); the Zinc writer appends the zone name and the '
+                    'Hayson writer the tz member exactly when is_utc is false; the C getters return the UTC or the local date / time as their flag asks.'),
         not_decided=('Everything inside chrono/chrono_tz (RFC 3339 parsing, zone database, DST resolution, with_timezone) -- which is where '
                      '"both sides of every DST transition, all ~600 zones" lives; that the Etc/GMT name carries both hour digits and that '
                      'offsets with minutes are rejected (the name goes through format!, which CBMC does not finish: 15 min for the full '
                      'domain, 10 min for +HH:00 only); find_timezone\'s prefix search; the C API constructors.'),
-        technique='contract-based deductive verification: Kani complete symbolic harness over the fixed-format offset strings',
+        technique='contract-based deductive verification: Kani complete symbolic harness over the fixed-format offset strings + Verus postconditions on the real glue functions around chrono',
     ),
     'C15': dict(
         title='Every database unit is found by each of its names and survives both codecs',
